@@ -428,6 +428,14 @@ def render_shard(args):
     return acc
 
 
+def _opt_explore(_):
+    return explore(False, "quick")[0]
+
+
+def opt_shards(tier):
+    return [(_opt_explore, None), (check_scenarios, "quick")]
+
+
 def replay(case):
     if case.get("kind") in ("reused-dict", "first-object", "extra-keys", "context", "key-order", "two-handles", "derived-object"):
         a = check_scenarios("quick")
@@ -488,6 +496,7 @@ def run(tier, seed, t0):
     acc.merge(core.pmap(render_shard, shards))
     acc.states = len(seen)
     acc.merge(check_scenarios(tier))
+    acc.merge(core.run_optimized(PROP, tier))      # palette validation once more under `python -O`
     return core.finish(
         PROP, tier, seed, acc, t0,
         rule="BFS over histories of set_HTMLColorResiduePalette with %d arguments (19 valid palettes: default, 17 one-colour, one "
